@@ -20,7 +20,7 @@ from .sym import Poly
 from .spline import Rat
 from .kerneldef import Extractor, Unsupported
 from .report import Finding
-from .plscheck import (Tail, NotUnderstood, exec_paths, vdot, vsame, msame, vshow, mshow, vscale, expand, ONE, ZERO, N, rel, settled)
+from .plscheck import (Tail, NotUnderstood, report_partial, exec_paths, vdot, vsame, msame, vshow, mshow, vscale, expand, ONE, ZERO, N, rel, settled)
 
 
 def _alloc_sizes(f, tl):
@@ -131,6 +131,7 @@ def component(chk, prog):
         if len(ev) != 1 or len(okev) != 1:
             probs.append(('eigenvalue', 'the eigenvalue stored is %s, not the squared norm t\'t of the last (or last but one) score' %
                           ('; '.join('%s%s = %r' % (c[0], c[1], c[2]) for c in ev)[:200] or 'missing')))
+        report_partial(chk, R, f, ex_, 'when the iteration stops')
         if not probs:
             chk.instance(R, '%s PCA (path %s): p\'p = 1, t = E p, scores[:, pc] = t, loadings[:, pc] = p, E -= t p\', %s%s = t\'t' %
                          (f.unit.where(loop), path, okev[0][0], okev[0][1]))
@@ -371,6 +372,7 @@ def score_predictor(chk, prog):
                 probs.append(('deflation', 'E is left as %s, not E - t p\' = %s' % (mshow(st.mat[En])[:200], mshow(want_E)[:200])))
         else:
             probs.append(('score', 'the projected score is %s, not E times column %s of the stored loadings' % (vshow(val)[:200], var)))
+    report_partial(chk, R, f, st, 'one component')
     if st.vec.get(tn) != {}:
         probs.append(('reset', 'the score vector is %s at the end of the body: the product kernel adds into it, so the next component starts from it' % vshow(st.vec.get(tn, {}))[:160]))
     if not probs:
